@@ -37,6 +37,9 @@ def Compat (sh : Labels → Nat) : VExpr → Prop
   | .sel _ => True
   | .fn g e => (∀ l v s, g l v = some s → sh s.1 = sh l) ∧ Compat sh e
   | .agg key _ e => (∀ l, sh (key l) = sh l) ∧ Compat sh e
+  | .binL sig f l r =>
+    (∀ a b, sig a = sig b → sh a = sh b) ∧ (∀ x ro s, f x ro = some s → sh s.1 = sh x.1) ∧ Compat sh l ∧ Compat sh r
+  | .append l r => Compat sh l ∧ Compat sh r
 
 theorem groupAgg_shard (sh : Labels → Nat) (key : Labels → Labels) (op : List Int → Int)
     (hk : ∀ l, sh (key l) = sh l) (i : Nat) (v : Vec) :
@@ -85,6 +88,47 @@ theorem filterMap_shard (sh : Labels → Nat) (g : Labels → Int → Option Ser
         have : ¬ sh s.1 = i := by rw [hg _ _ _ hgx]; exact hx
         simp [this, ih]
 
+theorem filterMap_shard' (sh : Labels → Nat) (g : Series → Option Series)
+    (hg : ∀ x s, g x = some s → sh s.1 = sh x.1) (i : Nat) :
+    ∀ v : Vec, (shardOf sh i v).filterMap g = shardOf sh i (v.filterMap g)
+  | [] => rfl
+  | x :: xs => by
+    have ih := filterMap_shard' sh g hg i xs
+    unfold shardOf at ih ⊢
+    by_cases hx : sh x.1 = i
+    · simp only [List.filter_cons, hx, decide_true, if_true, List.filterMap_cons]
+      cases hgx : g x with
+      | none => simpa using ih
+      | some s =>
+        have : sh s.1 = i := by rw [hg _ _ hgx, hx]
+        simp [this, ih]
+    · simp only [List.filter_cons, hx, decide_false, List.filterMap_cons]
+      cases hgx : g x with
+      | none => simpa using ih
+      | some s =>
+        have : ¬ sh s.1 = i := by rw [hg _ _ hgx]; exact hx
+        simp [this, ih]
+
+theorem filterMap_congr' {α β : Type} (f g : α → Option β) :
+    ∀ (l : List α), (∀ a ∈ l, f a = g a) → l.filterMap f = l.filterMap g
+  | [], _ => rfl
+  | x :: xs, h => by
+    simp only [List.filterMap_cons, h x (by simp)]
+    rw [filterMap_congr' f g xs (fun a ha => h a (List.mem_cons_of_mem _ ha))]
+
+theorem find?_filter_of_imp {α : Type} (p q : α → Bool) (h : ∀ a, p a = true → q a = true) :
+    ∀ l : List α, (l.filter q).find? p = l.find? p
+  | [] => rfl
+  | x :: xs => by
+    by_cases hq : q x = true
+    · simp only [List.filter_cons, hq, if_true, List.find?_cons]
+      cases p x <;> simp [find?_filter_of_imp p q h xs]
+    · have hp : p x = false := by
+        cases hp : p x with
+        | false => rfl
+        | true => exact absurd (h x hp) hq
+      simp [List.filter_cons, hq, List.find?_cons, hp, find?_filter_of_imp p q h xs]
+
 /-- **evaluation commutes with taking a shard** (as lists, order included) -/
 theorem eval_shard (sh : Labels → Nat) (i : Nat) :
     ∀ (e : VExpr), Compat sh e → ∀ s : Vec, eval e (shardOf sh i s) = shardOf sh i (eval e s)
@@ -101,6 +145,29 @@ theorem eval_shard (sh : Labels → Nat) (i : Nat) :
     simp only [eval]
     rw [eval_shard sh i e hc.2 s]
     exact groupAgg_shard sh key op hc.1 i _
+  | .binL sig f l r, hc, s => by
+    obtain ⟨hsig, hf, hl, hr⟩ := hc
+    simp only [eval]
+    rw [eval_shard sh i l hl s, eval_shard sh i r hr s]
+    -- on the left series of shard i, looking up the partner in shard i of the right operand is
+    -- looking it up in the whole right operand
+    have hcongr : (shardOf sh i (eval l s)).filterMap
+          (fun x => f x ((shardOf sh i (eval r s)).find? fun y => sig y.1 = sig x.1)) =
+        (shardOf sh i (eval l s)).filterMap (fun x => f x ((eval r s).find? fun y => sig y.1 = sig x.1)) := by
+      apply filterMap_congr'
+      intro x hx
+      have hxi : sh x.1 = i := by simpa [shardOf] using (List.mem_filter.mp hx).2
+      unfold shardOf
+      rw [find?_filter_of_imp]
+      intro y hy
+      have : sig y.1 = sig x.1 := by simpa using hy
+      simp [hsig _ _ this, hxi]
+    rw [hcongr]
+    exact filterMap_shard' sh _ (fun x s' h => hf x _ s' h) i _
+  | .append l r, hc, s => by
+    simp only [eval]
+    rw [eval_shard sh i l hc.1 s, eval_shard sh i r hc.2 s]
+    simp [shardOf]
 
 /-- every output series has the shard of some input series -/
 theorem eval_shard_of_input (sh : Labels → Nat) :
@@ -121,6 +188,17 @@ theorem eval_shard_of_input (sh : Labels → Nat) :
     rw [← hxk]
     simp only
     rw [← hzk, hc.1, hzy]
+  | .binL sig f l r, hc, s, x, hx => by
+    obtain ⟨_, hf, hl, _⟩ := hc
+    simp only [eval, List.mem_filterMap] at hx
+    obtain ⟨z, hz, hfz⟩ := hx
+    obtain ⟨y, hy, hzy⟩ := eval_shard_of_input sh l hl s z hz
+    exact ⟨y, hy, by rw [hf _ _ _ hfz, hzy]⟩
+  | .append l r, hc, s, x, hx => by
+    simp only [eval, List.mem_append] at hx
+    rcases hx with hx | hx
+    · exact eval_shard_of_input sh l hc.1 s x hx
+    · exact eval_shard_of_input sh r hc.2 s x hx
 
 /-- a list is a permutation of its parts by shard index -/
 theorem perm_shards (sh : Labels → Nat) (v : Vec) :
@@ -163,28 +241,49 @@ inductive FExpr where
   | fn (name : String) (drop : Bool) (f : Int → Option Int) (e : FExpr)
   | aggBy (op : String) (L : List String) (f : List Int → Int) (e : FExpr)
   | aggWithout (op : String) (L : List String) (f : List Int → Int) (e : FExpr)
+  /-- `l op on(L) r` / `l op ignoring(L) r`, one-to-one: `arith = true` for arithmetic (the
+      result carries the matching labels only), `false` for comparison filters, `and`, `unless`
+      (the left series is kept as it is); `f lv rv?` is the result value, `none` = dropped -/
+  | bin (op : String) (on : Bool) (L : List String) (arith : Bool) (f : Int → Option Int → Option Int) (l r : FExpr)
+  /-- `l or on(L) r` / `l or ignoring(L) r` -/
+  | or_ (on : Bool) (L : List String) (l r : FExpr)
 
 def plainFn (name : String) : Bool :=
   !(name = "label_join" || name = "label_replace" || name = "absent_over_time" || name = "absent" ||
-    name = "scalar" || name = "histogram_quantile")
+    name = "scalar" || name = "histogram_quantile" || name = "time" || name = "pi")
+
+/-- the matching signature of `on (L)` / `ignoring (L)` -/
+def sigOf (on : Bool) (L : List String) : Labels → Labels := if on then keyBy L else keyWithout L
+
+/-- what the analyzer scopes to at a binary node -/
+def binScope (on : Bool) (L : List String) : List String × Bool := (if on then L else L ++ ["__name__"], on)
 
 def FExpr.WF : FExpr → Prop
   | .sel _ _ => True
   | .fn name _ _ e => plainFn name = true ∧ e.WF
   | .aggBy op _ _ e => op ≠ "count_values" ∧ e.WF
   | .aggWithout op _ _ e => op ≠ "count_values" ∧ e.WF
+  | .bin _ _ _ _ _ l r => l.WF ∧ r.WF
+  | .or_ _ _ l r => l.WF ∧ r.WF
 
 def FExpr.toExpr : FExpr → Expr
   | .sel t _ => .sel t
   | .fn name _ _ e => .call name [e.toExpr]
   | .aggBy op L _ e => .agg op .by_ L none e.toExpr
   | .aggWithout op L _ e => .agg op .without L none e.toExpr
+  | .bin op on L _ _ l r => .bin op (if on then .on else .ignoring) L l.toExpr r.toExpr
+  | .or_ on L l r => .bin "or" (if on then .on else .ignoring) L l.toExpr r.toExpr
 
 def FExpr.toV : FExpr → VExpr
   | .sel _ p => .sel p
   | .fn _ drop f e => .fn (fun l v => (f v).map fun v' => (if drop then dropName l else l, v')) e.toV
   | .aggBy _ L f e => .agg (keyBy L) f e.toV
   | .aggWithout _ L f e => .agg (keyWithout L) f e.toV
+  | .bin _ on L arith f l r =>
+    .binL (sigOf on L)
+      (fun x ro => (f x.2 (ro.map (·.2))).map fun v => (if arith then sigOf on L x.1 else x.1, v)) l.toV r.toV
+  | .or_ on L l r =>
+    .append l.toV (.binL (sigOf on L) (fun x ro => match ro with | none => some x | some _ => none) r.toV l.toV)
 
 /-- grouping scopes in the analyzer's pre-order -/
 def FExpr.scopes : FExpr → List (List String × Bool)
@@ -192,9 +291,46 @@ def FExpr.scopes : FExpr → List (List String × Bool)
   | .fn _ _ _ e => e.scopes
   | .aggBy _ L _ e => (L, true) :: e.scopes
   | .aggWithout _ L _ e => (L, false) :: e.scopes
+  | .bin _ on L _ _ l r => binScope on L :: (l.scopes ++ r.scopes)
+  | .or_ on L l r => binScope on L :: (l.scopes ++ r.scopes)
 
 def foldScopes (a : Analysis) (scs : List (List String × Bool)) : Analysis :=
   scs.foldl (fun a sc => scopeToLabels a sc.1 sc.2) a
+
+theorem isScalar_fragment : ∀ (e : FExpr), e.WF → isScalar e.toExpr = false
+  | .sel _ _, _ => rfl
+  | .fn name _ _ e, hwf => by
+    have hp := hwf.1
+    simp only [plainFn, Bool.not_eq_true', Bool.or_eq_false_iff, decide_eq_false_iff_not] at hp
+    obtain ⟨⟨⟨⟨⟨⟨⟨_, _⟩, _⟩, _⟩, h5⟩, _⟩, h7⟩, h8⟩ := hp
+    simp [FExpr.toExpr, isScalar, h5, h7, h8]
+  | .aggBy _ _ _ _, _ => rfl
+  | .aggWithout _ _ _ _, _ => rfl
+  | .bin _ _ _ _ _ l r, hwf => by simp [FExpr.toExpr, isScalar, isScalar_fragment l hwf.1]
+  | .or_ _ _ l r, hwf => by simp [FExpr.toExpr, isScalar, isScalar_fragment l hwf.1]
+
+theorem foldScopes_append (a : Analysis) (s1 s2 : List (List String × Bool)) :
+    foldScopes a (s1 ++ s2) = foldScopes (foldScopes a s1) s2 := by
+  simp [foldScopes, List.foldl_append]
+
+theorem walk_bin (op : String) (on : Bool) (L : List String) (l r : FExpr) (hl : l.WF) (hr : r.WF)
+    (ihl : ∀ st : St, st.ok = true → walk st l.toExpr = { st with an := foldScopes st.an l.scopes })
+    (ihr : ∀ st : St, st.ok = true → walk st r.toExpr = { st with an := foldScopes st.an r.scopes })
+    (st : St) (hok : st.ok = true) :
+    walk st (.bin op (if on then .on else .ignoring) L l.toExpr r.toExpr) =
+      { st with an := foldScopes st.an (binScope on L :: (l.scopes ++ r.scopes)) } := by
+  have h1 := isScalar_fragment l hl
+  have h2 := isScalar_fragment r hr
+  simp only [walk, hok, h1, h2]
+  simp only [not_true_eq_false, if_false, Bool.or_self, Bool.false_eq_true]
+  have hsc : (if (if on = true then Match.on else Match.ignoring) == Match.on then L else L ++ ["__name__"]) = (binScope on L).1 ∧
+      ((if on = true then Match.on else Match.ignoring) == Match.on) = (binScope on L).2 := by
+    cases on <;> simp [binScope] <;> decide
+  rw [ihl _ (by simp [hok])]
+  simp only [hok, if_true]
+  rw [ihr _ (by simp [hok])]
+  simp only [foldScopes, List.foldl_cons, List.foldl_append]
+  rw [hsc.1, hsc.2]
 
 theorem walk_fragment : ∀ (e : FExpr), e.WF → ∀ st : St, st.ok = true →
     walk st e.toExpr = { st with an := foldScopes st.an e.scopes }
@@ -202,7 +338,7 @@ theorem walk_fragment : ∀ (e : FExpr), e.WF → ∀ st : St, st.ok = true →
   | .fn name _ _ e, hwf, st, hok => by
     have hp := hwf.1
     simp only [plainFn, Bool.not_eq_true', Bool.or_eq_false_iff, decide_eq_false_iff_not] at hp
-    obtain ⟨⟨⟨⟨⟨h1, h2⟩, h3⟩, h4⟩, h5⟩, h6⟩ := hp
+    obtain ⟨⟨⟨⟨⟨⟨⟨h1, h2⟩, h3⟩, h4⟩, h5⟩, h6⟩, _⟩, _⟩ := hp
     simp only [FExpr.toExpr, walk, hok, h1, h2, h3, h4, h5, h6, walkList, FExpr.scopes]
     simp [walk_fragment e hwf.2 st hok, hok]
   | .aggBy op L _ e, hwf, st, hok => by
@@ -217,6 +353,12 @@ theorem walk_fragment : ∀ (e : FExpr), e.WF → ∀ st : St, st.ok = true →
     rw [walk_fragment e hwf.2 _ (by simp [hok])]
     have : (Mode.without != Mode.without) = false := by decide
     simp [foldScopes, this]
+  | .bin op on L _ _ l r, hwf, st, hok => by
+    simp only [FExpr.toExpr, FExpr.scopes]
+    exact walk_bin op on L l r hwf.1 hwf.2 (walk_fragment l hwf.1) (walk_fragment r hwf.2) st hok
+  | .or_ on L l r, hwf, st, hok => by
+    simp only [FExpr.toExpr, FExpr.scopes]
+    exact walk_bin "or" on L l r hwf.1 hwf.2 (walk_fragment l hwf.1) (walk_fragment r hwf.2) st hok
 
 theorem analyze_fragment (e : FExpr) (hwf : e.WF) :
     analyze e.toExpr = foldScopes ⟨none, false⟩ e.scopes := by
@@ -398,6 +540,28 @@ theorem proj_dropName_without {K : List String} (hn : "__name__" ∈ K) (l : Lab
 def NameSafe (K : List String) (by_ : Bool) : Prop :=
   if by_ then "__name__" ∉ K else "__name__" ∈ K
 
+/-- what the sharding labels must satisfy at a vector-matching node -/
+def BinOK (K : List String) (by_ on : Bool) (L : List String) : Prop :=
+  if on then by_ = true ∧ ∀ k ∈ K, k ∈ L
+  else if by_ then (∀ k ∈ K, k ∉ L) ∧ "__name__" ∉ K
+  else (∀ x ∈ L, x ∈ K) ∧ "__name__" ∈ K
+
+theorem proj_sigOf {K : List String} {by_ on : Bool} {L : List String} (h : BinOK K by_ on L) (l : Labels) :
+    projection K by_ (sigOf on L l) = projection K by_ l := by
+  unfold BinOK at h
+  unfold sigOf
+  cases on with
+  | true =>
+    simp only [if_true] at h ⊢
+    obtain ⟨hb, hk⟩ := h
+    subst hb
+    exact proj_keyBy hk l
+  | false =>
+    simp only [Bool.false_eq_true, if_false] at h ⊢
+    cases by_ with
+    | true => simp only [if_true] at h; exact proj_keyWithout_by h.1 h.2 l
+    | false => simp only [Bool.false_eq_true, if_false] at h; exact proj_keyWithout_without h.1 h.2 l
+
 /-- what the sharding labels must satisfy at every node of the fragment -/
 def Scoped (K : List String) (by_ : Bool) : FExpr → Prop
   | .sel _ _ => True
@@ -405,6 +569,8 @@ def Scoped (K : List String) (by_ : Bool) : FExpr → Prop
   | .aggBy _ L _ e => (by_ = true ∧ ∀ k ∈ K, k ∈ L) ∧ Scoped K by_ e
   | .aggWithout _ L _ e =>
     (NameSafe K by_ ∧ if by_ then ∀ k ∈ K, k ∉ L else ∀ x ∈ L, x ∈ K) ∧ Scoped K by_ e
+  | .bin _ on L _ _ l r => BinOK K by_ on L ∧ Scoped K by_ l ∧ Scoped K by_ r
+  | .or_ on L l r => BinOK K by_ on L ∧ Scoped K by_ l ∧ Scoped K by_ r
 
 theorem compat_of_scoped (hash : Labels → Nat) (total : Nat) (K : List String) (by_ : Bool) :
     ∀ e : FExpr, Scoped K by_ e → Compat (shReal hash total K by_) e.toV
@@ -440,6 +606,66 @@ theorem compat_of_scoped (hash : Labels → Nat) (total : Nat) (K : List String)
     cases by_ with
     | true => rw [proj_keyWithout_by (by simpa using hk) (by simpa [NameSafe] using hn)]
     | false => rw [proj_keyWithout_without (by simpa using hk) (by simpa [NameSafe] using hn)]
+  | .bin _ on L arith f l r, h => by
+    obtain ⟨hb, hl, hr⟩ := h
+    refine ⟨?_, ?_, compat_of_scoped hash total K by_ l hl, compat_of_scoped hash total K by_ r hr⟩
+    · intro a b hab
+      unfold shReal
+      rw [← proj_sigOf hb a, hab, proj_sigOf hb b]
+    · intro x ro s hs
+      cases hf : f x.2 (ro.map (·.2)) with
+      | none => simp [hf] at hs
+      | some v =>
+        simp only [hf, Option.map_some, Option.some.injEq] at hs
+        subst hs
+        cases arith with
+        | false => rfl
+        | true => simp only [if_true]; unfold shReal; rw [proj_sigOf hb]
+  | .or_ on L l r, h => by
+    obtain ⟨hb, hl, hr⟩ := h
+    have cl := compat_of_scoped hash total K by_ l hl
+    have cr := compat_of_scoped hash total K by_ r hr
+    refine ⟨cl, ?_, ?_, cr, cl⟩
+    · intro a b hab
+      unfold shReal
+      rw [← proj_sigOf hb a, hab, proj_sigOf hb b]
+    · intro x ro s hs
+      cases ro with
+      | none => simp at hs; subst hs; rfl
+      | some _ => simp at hs
+
+theorem binOK_of_inv {K : List String} {by_ on : Bool} {L : List String} {rest : List (List String × Bool)}
+    (h : ScopeInv ⟨some K, by_⟩ (binScope on L :: rest)) : BinOK K by_ on L := by
+  unfold ScopeInv at h
+  unfold BinOK
+  cases by_ with
+  | true =>
+    simp only [if_true] at h
+    have := h (binScope on L) (by simp)
+    cases on with
+    | true => simp only [if_true]; exact ⟨trivial, by simpa [binScope] using this.1⟩
+    | false =>
+      simp only [Bool.false_eq_true, if_false, if_true]
+      have h2 := this.2 (by simp [binScope])
+      simp only [binScope, Bool.false_eq_true, if_false, List.mem_append, List.mem_singleton, not_or] at h2
+      exact ⟨fun k hk => (h2 k hk).1, fun hn => (h2 _ hn).2 rfl⟩
+  | false =>
+    simp only [Bool.false_eq_true, if_false] at h
+    have := h (binScope on L) (by simp)
+    cases on with
+    | true => simp [binScope] at this
+    | false =>
+      simp only [Bool.false_eq_true, if_false]
+      have h2 := this.2
+      simp only [binScope, Bool.false_eq_true, if_false, List.mem_append, List.mem_singleton] at h2
+      exact ⟨fun x hx => h2 x (Or.inl hx), h2 _ (Or.inr rfl)⟩
+
+theorem scopeInv_sub {K : List String} {by_ : Bool} {seen sub : List (List String × Bool)}
+    (h : ScopeInv ⟨some K, by_⟩ seen) (hsub : ∀ sc ∈ sub, sc ∈ seen) : ScopeInv ⟨some K, by_⟩ sub := by
+  unfold ScopeInv at h ⊢
+  cases by_ with
+  | true => simp only [if_true] at h ⊢; exact fun sc hsc => h sc (hsub sc hsc)
+  | false => simp only [Bool.false_eq_true, if_false] at h ⊢; exact fun sc hsc => h sc (hsub sc hsc)
 
 theorem scoped_of_inv (K : List String) (by_ : Bool) (hn : NameSafe K by_) :
     ∀ e : FExpr, ScopeInv ⟨some K, by_⟩ e.scopes → Scoped K by_ e
@@ -472,5 +698,15 @@ theorem scoped_of_inv (K : List String) (by_ : Bool) (hn : NameSafe K by_) :
       refine ⟨⟨hn, by simpa using (h (L, false) (by simp)).2⟩, scoped_of_inv K false hn e ?_⟩
       unfold ScopeInv; simp only [Bool.false_eq_true, if_false]
       exact fun sc hsc => h sc (List.mem_cons_of_mem _ hsc)
+  | .bin _ on L _ _ l r, h => by
+    simp only [FExpr.scopes] at h
+    exact ⟨binOK_of_inv h,
+      scoped_of_inv K by_ hn l (scopeInv_sub h (fun sc hsc => List.mem_cons_of_mem _ (List.mem_append_left _ hsc))),
+      scoped_of_inv K by_ hn r (scopeInv_sub h (fun sc hsc => List.mem_cons_of_mem _ (List.mem_append_right _ hsc)))⟩
+  | .or_ on L l r, h => by
+    simp only [FExpr.scopes] at h
+    exact ⟨binOK_of_inv h,
+      scoped_of_inv K by_ hn l (scopeInv_sub h (fun sc hsc => List.mem_cons_of_mem _ (List.mem_append_left _ hsc))),
+      scoped_of_inv K by_ hn r (scopeInv_sub h (fun sc hsc => List.mem_cons_of_mem _ (List.mem_append_right _ hsc)))⟩
 
 end Thanos.Sharding
